@@ -115,12 +115,16 @@ theorem loOn_of_operandsOK {d : List (DomVar (Ext K))} (hnd : (d.map (·.name)).
 /-- the piecewise-linear fragment satisfies the contract. -/
 theorem GoodE.ofFG {d : List (DomVar (Ext K))} {e : Exp (Ext K)} (h : FG true (inScope d) e) (hd : DefinedE e) :
     GoodE d e :=
-  ⟨h.2, finE_of_definedE e h.1 hd, fun ρ _ => logicOperands01_of_frag true ρ e h.1, fun ρ _ => hd ρ⟩
+  ⟨h.2, finE_of_definedE e h.1 hd, NCon.ofLO (fun ρ _ => logicOperands01_of_frag true ρ e h.1) (fun ρ _ => hd ρ),
+    fun ρ _ => hd ρ⟩
 
 theorem LogicModel.ofFragModel {m : Model (Ext K)} {d : List (DomVar (Ext K))} (h : FragModel true m d) :
     LogicModel m d :=
-  ⟨GoodE.ofFG h.obj h.objDefined, fun c hc =>
-    ⟨GoodE.ofFG (h.cons c hc).lhs (fun ρ => by obtain ⟨a, _, ha, _⟩ := (h.cons c hc).defined ρ; exact ⟨a, ha⟩),
-     GoodE.ofFG (h.cons c hc).rhs (fun ρ => by obtain ⟨_, b, _, hb⟩ := (h.cons c hc).defined ρ; exact ⟨b, hb⟩)⟩⟩
+  ⟨(GoodE.ofFG h.obj h.objDefined).toS, fun c hc =>
+    have gl := GoodE.ofFG (d := d) (h.cons c hc).lhs
+      (fun ρ => by obtain ⟨a, _, ha, _⟩ := (h.cons c hc).defined ρ; exact ⟨a, ha⟩)
+    have gr := GoodE.ofFG (d := d) (h.cons c hc).rhs
+      (fun ρ => by obtain ⟨_, b, _, hb⟩ := (h.cons c hc).defined ρ; exact ⟨b, hb⟩)
+    ⟨gl.toS, gr.toS⟩⟩
 
 end Rooc.LinP
